@@ -202,7 +202,7 @@ CHECKS = {
             # valgrind memcheck sees the accesses of generated code as well (guards off: memcheck keeps its own shadow)
             {"variant": "opt", "sub": "c06", "shards": T(tier, 2, 12), "cases": T(tier, 12, 120), "args": {"placements": T(tier, 2, 10), "guards": 0}, "valgrind": True, "timeout": T(tier, 1800, 10800)},
         ],
-        "rule": "program cases as in C04 with emphasis on maximal-length encodings in light+v2+soft-AES (largest code), extreme immediates, every address-register choice, ma/mx=0x7fffffc0 with the maximal dataset offset (last dataset item), run by the interpreter and the (secure) JIT with every "
+        "rule": "program cases as in C04 with emphasis on maximal-length encodings in light+v2+soft-AES (largest code), extreme immediates, every address-register choice, ma/mx=0x7fffffc0 with the maximal dataset offset (last dataset item; the guarded fake dataset ends where the allocation the library itself requests in randomx_alloc_dataset ends - size observed through the interposer, counter library_dataset_extent_bytes is that size summed over the shard processes - and randomx_dataset_item_count()*64 must not exceed it), run by the interpreter and the (secure) JIT with every "
                 "scratchpad, cache, dataset and code buffer placed between PROT_NONE regions; per JIT run the bytes [16384, 81920) of the code buffer are hashed before/after and codePos must stay <= 16384; placement cases: input of length 0..300 and 32-byte output ending directly before a PROT_NONE page with a canary page in front, single, pipelined and commitment calls; "
                 "edge counters (measured at the interpreter hooks) show how often the first/last line/qword of each buffer was actually addressed; distinct by hash of program / placement",
         "assumptions": ["a wrong but in-range address is not a C06 matter (C04/C05)", "generated code is invisible to ASan; its accesses are judged by the guard regions (all addresses are 32-bit offsets from a base register, so a 4 GiB PROT_NONE tail catches any mask error)"],
